@@ -339,7 +339,8 @@ META = {
             "shadowed under a checked first-wins guard); every tabulated normalizer is proved an automorphism of the reference "
             "group and an isometry; the 4x4 matrix is applied in the table's convention to homogeneous scaled positions of the "
             "standardised cell, wrapped, on a copy (so lattice, species and atom count are the standardised ones by construction). "
-            "Space-group equality / congruence for a concrete input is spglib's run-time result and is not decided.",
+            "Space-group equality / congruence for a concrete input is spglib's run-time result and is not decided."
+            " R05.3 is applied leniently here (C05 only needs a proper rigid motion: all tabulated rotations are symmetric, so transposition or a lost translation is not a C05 violation; consistency of letters and positions is decided under C06/C07/C14); plus: spglib is handed the analysed structure unmodified, re-wrapping snaps coordinates only within numerical noise, and every memo of the analyzer is cleared by reset().",
     "note": "trusted: spglib Hall database; numpy dot/.T semantics; CPython ast.",
     "technique": "exact table obligations + reachability under a structural first-wins guard + matrix-convention normal form",
 }
